@@ -37,7 +37,10 @@ CONSTANTS
   CRange,       \* CRange[api] = <<min, max>> implemented by the client
   Reqs,         \* request ids (naturals >= 1)
   Menu,         \* Menu[r]: set of request descriptors r may be
+  MoveKinds,    \* which changes of the cluster the environment may make: subset of {"leader","add","remove","topic","coord","txn","ctrlr"}
   MaxConns, MaxMoves, MaxCancels, MaxCuts, MaxRefresh, MaxExpire, MaxCloseIdle,
+  AnyConnId,    \* FALSE: connections are numbered in the order they are opened (model checking); TRUE: any free number
+                \* (journals number them in dial order, which may differ from the order of the decisions to connect)
   Hist,         \* TRUE: keep every applied snapshot and dead connections (safety); FALSE: liveness configs
   Bug
 
@@ -135,13 +138,19 @@ Dest(r, i) ==
 
 Handed(l) == l.st \in {"sent", "ok", "fail"}
 \* sendRequest is called leg after leg by the calling goroutine (each call returns once the request is handed to a
-\* connection); the legs of a split request are sent in the iteration order of a Go map: any order;
-\* a coordinator leg waits for the answer of its FindCoordinator leg
+\* connection). The legs of a split request are built topic by topic, the topics in the iteration order of a Go
+\* map (any order), the partitions of a topic in the order given. A coordinator leg waits for the answer of its
+\* FindCoordinator leg.
 CanRoute(r, i) ==
   LET ls == rq[r].legs IN
   /\ i \in DOMAIN ls /\ ls[i].st = "todo"
   /\ \A j \in DOMAIN ls : ls[j].st # "wait"
-  /\ rq[r].d.cls # "split" => \A j \in 1 .. i - 1 : Handed(ls[j])
+  /\ IF rq[r].d.cls = "split"
+       THEN /\ \A j \in 1 .. i - 1 : ls[j].tp[1] = ls[i].tp[1] => Handed(ls[j])
+            /\ \A j \in DOMAIN ls : ls[j].tp[1] # ls[i].tp[1] =>
+                  \/ \A k \in DOMAIN ls : ls[k].tp[1] = ls[j].tp[1] => Handed(ls[k])
+                  \/ \A k \in DOMAIN ls : ls[k].tp[1] = ls[j].tp[1] => ~Handed(ls[k])
+       ELSE \A j \in 1 .. i - 1 : Handed(ls[j])
   /\ ls[i].cls \in {"coord", "txn"} => ls[i - 1].st \in {"ok", "fail"}
 
 -----------------------------------------------------------------------------
@@ -167,6 +176,7 @@ Init ==
 
 FreeConn == { c \in Conns : conns[c].st = "none" \/ (~Hist /\ conns[c].st = "dead") }
 NewConn == CHOOSE c \in FreeConn : \A x \in FreeConn : c <= x
+Fresh(c) == IF AnyConnId THEN c \in FreeConn ELSE FreeConn # {} /\ c = NewConn
 Pop(s) == SubSeq(s, 1, Len(s) - 1)
 Remove(s, c) == SelectSeq(s, LAMBDA x : x # c)
 SetLeg(r, i, f) == [rq EXCEPT ![r].legs[i] = f]
@@ -217,7 +227,7 @@ RouteGrab(r, i, c) ==
 \* no idle connection: connect (dial, ApiVersions, SelectVersion) in a goroutine, the caller waits
 RouteConnect(r, i, c) ==
   /\ rq[r].pc = "run" /\ CanRoute(r, i)
-  /\ FreeConn # {} /\ c = NewConn
+  /\ Fresh(c)
   /\ LET d == Dest(r, i) IN
        /\ d = 0 \/ d \in pool.groups
        /\ pool.idle[d] = << >>
@@ -235,7 +245,7 @@ RouteConnectRefused(r, i) ==
   /\ rq' = SetLeg(r, i, [rq[r].legs[i] EXCEPT !.st = "fail"])
   /\ UNCHANGED <<cl, moves, snaps, pool, disc, conns, sent, served, budget>>
 
-Waiting(r, i, c) == IF r = 0 THEN disc.pc = "conn" ELSE rq[r].pc = "run" /\ rq[r].legs[i].st = "wait" /\ rq[r].legs[i].c = c
+Waiting(r, i, c) == IF r = 0 THEN i = 1 /\ disc.pc = "conn" ELSE rq[r].pc = "run" /\ rq[r].legs[i].st = "wait" /\ rq[r].legs[i].c = c
 PeersOf(g) == IF g = 0 THEN cf.boot \cap cl.alive ELSE {g} \cap cl.alive
 
 \* the connection is established and its version table negotiated with broker b; it is handed to the
@@ -275,7 +285,9 @@ ConnectFail(c) ==
 \* what broker b answers to leg l of request r (an application-level error is still a response)
 Answer(r, i, l, b) ==
   CASE l.api = "FindCoordinator" ->
-         [for |-> <<r, i>>, from |-> b, node |-> IF i + 1 \in DOMAIN LegsR(r) /\ LegsR(r)[i + 1].cls = "txn" THEN cl.txn ELSE cl.coord]
+         \* (FindCoordinator v0 has no key type: a broker that old can only be asked for group coordinators)
+         [for |-> <<r, i>>, from |-> b,
+          node |-> IF i + 1 \in DOMAIN LegsR(r) /\ LegsR(r)[i + 1].cls = "txn" /\ Select("FindCoordinator", b) >= 1 THEN cl.txn ELSE cl.coord]
     [] l.api = "Metadata" -> [for |-> <<r, i>>, from |-> b, meta |-> View(cl)]
     [] l.cls = "leader" -> [for |-> <<r, i>>, from |-> b, ok |-> (l.tp[1] \in cl.topics /\ cl.leader[l.tp] = b)]
     [] l.cls = "coord" -> [for |-> <<r, i>>, from |-> b, ok |-> (cl.coord = b)]
@@ -430,7 +442,7 @@ DiscGrab(c) ==
 
 DiscConnect(c) ==
   /\ Due /\ pool.idle[0] = << >>
-  /\ FreeConn # {} /\ c = NewConn
+  /\ Fresh(c)
   /\ conns' = [conns EXCEPT ![c] = [NoConn EXCEPT !.st = "connecting", !.grp = 0, !.cur = <<0, 1>>]]
   /\ disc' = [disc EXCEPT !.pc = "conn", !.first = FALSE]
   /\ budget' = AskedB
@@ -524,10 +536,11 @@ CoordinatorMove(which, b) ==
   /\ Quiet /\ UNCHANGED <<conns, moves>>
 
 Env ==
-  \/ \E tp \in TPs, b \in Brokers : LeaderMove(tp, b)
-  \/ \E b \in Brokers : BrokerAdd(b) \/ \E h \in Brokers : BrokerRemove(b, h)
-  \/ \E t \in Topics : TopicCreate(t)
-  \/ \E w \in {"coord", "txn", "ctrlr"}, b \in Brokers : CoordinatorMove(w, b)
+  \/ "leader" \in MoveKinds /\ \E tp \in TPs, b \in Brokers : LeaderMove(tp, b)
+  \/ "add" \in MoveKinds /\ \E b \in Brokers : BrokerAdd(b)
+  \/ "remove" \in MoveKinds /\ \E b \in Brokers, h \in Brokers : BrokerRemove(b, h)
+  \/ "topic" \in MoveKinds /\ \E t \in Topics : TopicCreate(t)
+  \/ \E w \in {"coord", "txn", "ctrlr"} \cap MoveKinds, b \in Brokers : CoordinatorMove(w, b)
 
 Client ==
   \/ \E r \in Reqs :
